@@ -360,7 +360,7 @@ func c02(c *an.Ctx) {
 	}
 	// ---------------------------------------------------------------- R7
 	{
-		r := c.Rule("C02.R7 R8 R9", "K-PREDSHAPE", "engine/immutable:(*LocationCursor).Less — ordered locations by chunk time, out-of-order locations by file sequence (older file first)")
+		r := c.Rule("C02.R7", "K-PREDSHAPE", "engine/immutable:(*LocationCursor).Less — ordered locations by chunk time, out-of-order locations by file sequence (older file first)")
 		if f := fn(r, "engine/immutable:LocationCursor.Less"); f != nil {
 			f.AtomRename = an.Roles(
 				`^recv\.lcs\[p0\]\.r\.IsOrder\(\)$`, "I_IS_ORDER",
